@@ -441,7 +441,7 @@ func (env *Env) fieldByIndex(v Val, idx int) Val {
 			return term(e.mkSub(env.st, stt, idx, v.T), SRef, ptrMarker{types.NewPointer(ft)})
 		}
 		h, fs := e.d.FieldHeap(stt, idx)
-		return env.typed(term(sel(env.heapGet(h), v.T), fs, ft))
+		return env.typedFrom(term(sel(env.heapGet(h), v.T), fs, ft), h)
 	case *types.Struct:
 		si := e.d.StructOf(v.Typ)
 		ft := u.Field(idx).Type()
@@ -460,6 +460,25 @@ type ptrMarker struct{ *types.Pointer }
 
 // typed adds the type invariants of a value read from memory inside a contract expression
 // (slice header well-formedness, byte-string facts, unsigned ranges). Skipped under binders.
+// typedFrom: like typed, and for references read from heap array h also the fact that they were allocated
+// before that heap version was created (needed to separate them from objects allocated later).
+func (env *Env) typedFrom(v Val, h string) Val {
+	v = env.typed(v)
+	if v.K != KTerm || env.st == nil || hasBound(v.T) || v.S != SRef {
+		return v
+	}
+	bound := env.st.heapBound(h)
+	if env.inOld && env.old != nil {
+		if _, changed := env.old.heap[h]; !changed {
+			bound = "now0"
+		} else {
+			bound = env.old.alive
+		}
+	}
+	env.e.fact(env.st, "alive:"+v.T+"@"+bound, fmt.Sprintf("(or (= %s rnil) (< (stamp %s) %s))", v.T, v.T, bound))
+	return v
+}
+
 func (env *Env) typed(v Val) Val {
 	if v.K != KTerm || env.st == nil || hasBound(v.T) {
 		return v
@@ -974,6 +993,18 @@ func (env *Env) call(x *ast.CallExpr) Val {
 			return v
 		}
 		return e.makeIface(env.st, v, v.Typ, types.NewInterfaceType(nil, nil))
+	case "as":
+		// as(x, T): view the reference x as a value of Go type T (no check; for ghost/raw references)
+		argn(2)
+		v := env.eval(x.Args[0])
+		t := e.resolveType(exprString(x.Args[1]), env.pkg)
+		if t == nil {
+			env.fail("as: cannot resolve %s", exprString(x.Args[1]))
+		}
+		if e.d.SortOf(t) != v.S {
+			env.fail("as: sort mismatch (%s vs %s)", v.S, e.d.SortOf(t))
+		}
+		return term(v.T, v.S, t)
 	case "typeIs":
 		// typeIs(x, T): dynamic type of interface value x is T
 		argn(2)
